@@ -196,6 +196,27 @@ def gen_cfg_ops(ctx):
     return ops
 
 
+KIND_HOME = {"session": "session", "cli": "cliVerify", "storage": "storage", "code": "code", "access": "access", "id": "access"}
+SLOW_DEP = "1:rsa,40:rsa"    # the deployment's own key behind a long list of trusted keys that signed nothing under test
+
+
+def gen_ovl_ops(ctx):
+    """requests in flight at the same time (round 5): the artefact of every kind, exactly as the real producer minted
+    it, is presented to every consumer (foreground) WHILE the same bytes are being verified back to back by another
+    consumer of the same server (background): the consumer the kind is meant for, and one more drawn from the seed;
+    thorough: every (foreground, background, kind)."""
+    ops = []
+    for kind in KINDS:
+        for fg in CONSUMERS:
+            if ctx.quick():
+                bgs = [KIND_HOME[kind], ctx.rng.choice([x for x in CONSUMERS if x != KIND_HOME[kind]])]
+            else:
+                bgs = CONSUMERS
+            for bg in bgs:
+                ops.append("ovl %s %s %s" % (fg, bg, kind))
+    return ops
+
+
 def flat_val(v):
     if isinstance(v, bool) or isinstance(v, float) or isinstance(v, dict):
         return "o"
@@ -259,7 +280,7 @@ def run_harness_retry(ctx, ops, tries=6):
 def run(ctx):
     facts = c.regen(ctx)
     c.prove(ctx)
-    ops = gen_cfg_ops(ctx) + gen_ops(ctx)
+    ops = gen_cfg_ops(ctx) + gen_ovl_ops(ctx) + gen_ops(ctx)
     if ctx.replay:
         rp = json.load(open(ctx.replay))
         ops = [v["replay"]["op"].split(" :: ")[0] for v in rp.get("violations", []) if "op" in v.get("replay", {})] or ops[:100]
@@ -310,8 +331,35 @@ def run(ctx):
     cases = []      # (label, consumer, kind, sign label, garble, deployment keys, (alg, by, scheme), decision, kv, line)
     cfg_hist = {}
     seen_trust = set()
+    bg_cases = []   # decisions of the background requests of `ovl` ops: judged, not compared with the model line by line
+    ovl_stat = {"ops": 0, "foreground_started_inside_a_background_verification": 0, "background_requests": 0,
+                "background_accepted": 0, "background_rejected": 0, "verification_us": 0, "trusted_keys": 0}
     for o, line in zip(ops, impl):
         f = o.split()
+        if f[0] == "ovl":
+            if " | " not in line or line.startswith("bad-op") or line.startswith("harness-error"):
+                ctx.broken.append("harness answered %r for %r" % (line[:200], o))
+                continue
+            dec, rest = line.split(" | ", 1)
+            kv = dict(x.split("=", 1) for x in rest.split() if "=" in x)
+            if "MISMATCH" in rest or "INVALID" in rest:
+                ctx.broken.append("harness self-check failed: %s for %r" % (rest[-80:], o))
+            label = "%s :: %s artefact as minted presented to %s while the same bytes are being verified by %s (%s of its %s requests " \
+                    "honoured; one verification takes %s us over %s trusted keys; %s in flight when this request started)" % (
+                        o, f[3], f[1], f[2], kv["bgacc"], kv["bgn"], kv["vus"], kv["nkeys"], kv["inflight"])
+            cases.append((label, f[1], f[3], "ovl-" + f[2], "-", SLOW_DEP, SIGN["orig"], dec, kv, line))
+            ovl_stat["ops"] += 1
+            ovl_stat["foreground_started_inside_a_background_verification"] += 1 if kv["inflight"] != "0" else 0
+            ovl_stat["background_requests"] += int(kv["bgn"])
+            ovl_stat["background_accepted"] += int(kv["bgacc"])
+            ovl_stat["background_rejected"] += int(kv["bgrej"])
+            ovl_stat["verification_us"], ovl_stat["trusted_keys"] = int(kv["vus"]), int(kv["nkeys"])
+            if f[2] != "storage":       # the background storage request is the record verification alone, not a lookup
+                for n, d in ((kv["bgacc"], "acc"), (kv["bgrej"], "rej")):
+                    if n != "0":
+                        bg_cases.append(("%s :: background: %s of the %s requests of %s carrying the %s artefact while %s was handling the "
+                                         "same bytes -> %s" % (o, n, kv["bgn"], f[2], f[3], f[1], d), f[2], f[3], d, kv, line))
+            continue
         if f[0] == "seq":
             if not line.startswith("seq | "):
                 ctx.broken.append("harness answered %r for %r" % (line[:200], o))
@@ -411,6 +459,17 @@ def run(ctx):
             key = "%s<-%s:%s" % (cons, kind, v.split(" ", 1)[1] if " " in v else v)
             c.add_violation(ctx, key, "consumer %s honoured/processed a %s artefact: %s; op %r -> %s" % (
                 cons, kind, v, o, m[5]), {"op": o, "impl": m[7], "judge": v, "claims": bytes.fromhex(m[6]["wire"]).decode("utf-8", "replace")})
+    # background requests of the overlapping pairs: the property's predicate on each decision
+    bj = []
+    for o, cons, kind, d, kv, line in bg_cases:
+        wire, _ = flat_wire(kv["wire"])
+        bj.append("call %s %s 500000000 %s %s %s RS256 1 RS256 %s %s fx=000" % (
+            cons, kv["bgnow"], hx(ISSUER), SLOW_DEP, " ".join(kv["bgslots"].split(",")), wire, d))
+    for (o, cons, kind, d, kv, line), v in zip(bg_cases, c.run_driver(ctx, "judge", bj) if bj else []):
+        if v != "ok":
+            c.add_violation(ctx, "%s<-%s:%s" % (cons, kind, v.split(" ", 1)[1] if " " in v else v),
+                            "consumer %s honoured/processed a %s artefact: %s; op %r" % (cons, kind, v, o),
+                            {"op": o, "impl": line, "judge": v, "claims": bytes.fromhex(kv["wire"]).decode("utf-8", "replace")})
     # if only the correspondence broke, show what the as-found model says for the first disagreements
     if dis:
         old = c.run_driver(ctx, "model-asfound", [mops[[m[0] for m in meta].index(d[1])] for d in dis[:5]])
@@ -430,11 +489,12 @@ def run(ctx):
         "sign_modes": {k: sum(1 for m in meta if m[3] == k) for k in SIGN},
         "loader_built_deployment_ops": sum(cfg_hist.values()), "loader_built_by_signing_key": dict(sorted(cfg_hist.items())),
         "storage_sequence_lookups": sum(1 for m in meta if m[3].startswith("seq-")),
+        "overlapping_requests": ovl_stat, "overlapping_background_decisions_judged": len(bg_cases),
         "corrupted": sum(1 for m in meta if m[4] != "-"),
         "corrupted_but_identical_bytes": sum(1 for m in meta if m[4] != "-" and m[6]["same"] == "1"),
         "unknown_json_keys_dropped": unknown_keys,
         "producer_lines": len(emit_ops),
-        "consumer_tables": {k: len(v) for k, v in facts.get("c04", {}).get("comparisons", {}).items()},
+        "consumer_tables": {k: len(v or []) for k, v in ((facts.get("c04") or {}).get("comparisons") or {}).items()},
         "samples": [{"op": m[0], "impl": m[5]} for m in meta[:3] + meta[200:203]],
     })
     return c.finish(ctx)
